@@ -28,6 +28,10 @@ import (
 	"tunnox-core/verif/vkit/miniserver"
 )
 
+// notTheSubject is the waiting period used where the lifetime is not what a test is about: long enough that no stall
+// or suspension of the process can make a freshly registered record lapse before it is read back.
+const notTheSubject = time.Hour
+
 type RaceCase struct {
 	Kind    string `json:"kind"`    // expired-lookup-vs-register | duplicate-open | concurrent-register (Lookers = registrations per round)
 	Backend string `json:"backend"` // memory | hybrid-memory (redis | hybrid-redis for concurrent-register)
@@ -72,7 +76,7 @@ func runExpiredLookupRace(c RaceCase) *failure {
 	ctx := context.Background()
 	st := memStore(c.Backend)
 	shortNode := tunnel.NewRoutingTable(st, 2*time.Millisecond) // registers the record that lapses
-	nodes := []*tunnel.RoutingTable{tunnel.NewRoutingTable(st, 30*time.Second), tunnel.NewRoutingTable(st, 30*time.Second), shortNode}
+	nodes := []*tunnel.RoutingTable{tunnel.NewRoutingTable(st, notTheSubject), tunnel.NewRoutingTable(st, notTheSubject), shortNode}
 	const batch = 64
 	done := 0
 	for done < c.Rounds {
@@ -158,7 +162,7 @@ func runConcurrentRegisterRace(c RaceCase) *failure {
 	}
 	var nodes []*tunnel.RoutingTable
 	for _, st := range stores {
-		nodes = append(nodes, tunnel.NewRoutingTable(st, 30*time.Second))
+		nodes = append(nodes, tunnel.NewRoutingTable(st, notTheSubject))
 	}
 	width := c.Lookers // concurrent registrations per round
 	for r := 0; r < c.Rounds; r++ {
@@ -215,12 +219,12 @@ func pushTunnelOpen(c *miniserver.Client, req *packet.TunnelOpenRequest) {
 func runDuplicateOpenRace(c RaceCase) (*failure, int) {
 	ctx := context.Background()
 	st := memStore(c.Backend)
-	srv, err := miniserver.New(miniserver.Options{Storage: st, NodeID: "node-1", RoutingTTL: 30 * time.Second, NoSecurityGate: true})
+	srv, err := miniserver.New(miniserver.Options{Storage: st, NodeID: "node-1", RoutingTTL: notTheSubject, NoSecurityGate: true})
 	if err != nil {
 		panic("C09 harness: miniserver.New: " + err.Error())
 	}
 	defer srv.Close()
-	other := tunnel.NewRoutingTable(st, 30*time.Second)
+	other := tunnel.NewRoutingTable(st, notTheSubject)
 	type party struct {
 		id     int64
 		secret string
